@@ -231,6 +231,10 @@ func c04Programs(tier string) []*Spec {
 			}
 			mk("plain", func(sp *Spec) {})
 			mk("ext", func(sp *Spec) { sp.Bars[0].ExtRows = 2; sp.Bars[1].ExtRows = 1; sp.Bars[1].ExtRev = true })
+			mk("ext-unterminated", func(sp *Spec) {
+				sp.Bars[0].ExtRows, sp.Bars[0].ExtNoNL = 1, true
+				sp.Clients = append(sp.Clients, []Op{{K: "write", S: "a line of text\n"}})
+			})
 			mk("abortdrop", func(sp *Spec) { sp.Clients[1] = []Op{{K: "abort", B: 1, F: true}} })
 			mk("rm", func(sp *Spec) { sp.Bars[0].Rm = true; sp.Bars[0].ExtRows = 1 })
 			mk("write", func(sp *Spec) {
